@@ -1,0 +1,1 @@
+//! Verification facade: `pager` (feature `verif`).
